@@ -119,6 +119,7 @@ type Unit struct {
 	specErrors []string
 	reqMark    int
 	usedLemmas map[string]bool
+	typingInst map[string]bool // typing-axiom instances already asserted for specification loads
 	calleeGhosts map[string]Val // ghosts of contract-mode callees, "Callee.name" (last call)
 	ancCache   map[int]map[int]bool
 	ancMu      sync.Mutex
